@@ -128,7 +128,107 @@ theorem RunCAll.public04 {run : RunFn K} (h : RunCAll cfg run) : P04.RunPublic c
 theorem RunCAll.public16 {run : RunFn K} (h : RunCAll cfg run) : P16.RunPublic cfg run :=
   fun d w w' hr => (h (fun _ => True) d w w' (wok_true w) hr).toPublic
 
-/-- the stack of one strategy is a sequence of public calls (those of its `Rebalance`) -/
+/-- the truncated children carry the same current weights -/
+theorem curWeights_truncL (t : Nat) (kids : List (Node K)) : curWeights (Node.truncL t kids) = curWeights kids := by
+  unfold curWeights
+  rw [truncL_length, truncL_eq_map, List.map_map]
+  congr 1
+  exact List.map_congr_left fun k _ => node_trunc_weight t k
+
+/-- a weight post-processing algo touches the world through a refreshing getter at most (`LimitDeltas` reading the
+    children's weights): a sequence of public calls -/
+theorem postStep_runC {C : Nat → Prop} {path : List Nat} {st : WStep K} {w w' : World K} {ws ws' : List (Nat × K)}
+    (h : postStep cfg path st (w, ws) = .ok (w', ws')) : RunC cfg C w w' := by
+  cases st with
+  | scale s => simp only [postStep] at h; cases h; exact .nil _
+  | limitW l =>
+    simp only [postStep] at h
+    split at h
+    · cases h; exact .nil _
+    · cases h
+    · cases h
+  | limitD order glob per =>
+    simp only [postStep] at h
+    split at h
+    · split at h
+      · cases h; exact .nil _
+      · obtain ⟨w1, h1, h⟩ := bind_eq_ok h
+        split at h
+        · cases h; exact runC_refresh h1
+        · cases h
+    · cases h
+  | overTime n =>
+    simp only [postStep] at h
+    obtain ⟨w1, h1, h⟩ := bind_eq_ok h
+    split at h
+    · cases h; exact runC_refresh h1
+    · cases h
+
+theorem postSteps_runC {C : Nat → Prop} {path : List Nat} : ∀ (sts : List (WStep K)) {w w' : World K} {ws ws' : List (Nat × K)},
+    postSteps cfg path sts (w, ws) = .ok (w', ws') → RunC cfg C w w'
+  | [], w, w', ws, ws', h => by rw [postSteps] at h; cases h; exact .nil _
+  | st :: rest, w, w', ws, ws', h => by
+    rw [postSteps] at h
+    obtain ⟨⟨w1, ws1⟩, h1, h⟩ := bind_eq_ok h
+    exact (postStep_runC h1).append (postSteps_runC rest h)
+
+/-- the world part of a post-processing state, truncated -/
+def truncFst (t : Nat) (s : World K × List (Nat × K)) : World K × List (Nat × K) := (s.1.trunc t, s.2)
+
+/-- … and commutes with truncation (the weights it computes are the same: it reads `weight` fields only) -/
+theorem postStep_trunc {t : Nat} (path : List Nat) (st : WStep K) {w : World K} (hw : ClockLE t w) (ws : List (Nat × K)) :
+    postStep cfg path st (w.trunc t, ws) = (postStep cfg path st (w, ws)).map (truncFst t) := by
+  cases st with
+  | scale s => rfl
+  | limitW l =>
+    simp only [postStep]
+    cases Weigh.limitWeights l ws <;> rfl
+  | limitD order glob per =>
+    simp only [postStep]
+    rw [world_trunc_root, get?_trunc]
+    cases hg : w.root.get? path with
+    | none => rfl
+    | some n =>
+      cases n with
+      | sec s => rfl
+      | strat sd0 kids0 =>
+        simp only [Option.map_some, trunc_strat, truncL_isEmpty]
+        refine ite_comm Iff.rfl (Except.map (truncFst t)) rfl ?_
+        refine bind_comm (World.trunc t) (truncFst t) (refresh_trunc hw) fun w1 h1 => ?_
+        rw [world_trunc_root, get?_trunc]
+        cases hg1 : w1.root.get? path with
+        | none => rfl
+        | some n1 =>
+          cases n1 with
+          | sec s => rfl
+          | strat sd ks =>
+            simp only [Option.map_some, trunc_strat, curWeights_truncL]
+            rfl
+  | overTime n =>
+    simp only [postStep]
+    refine bind_comm (World.trunc t) (truncFst t) (refresh_trunc hw) fun w1 h1 => ?_
+    rw [world_trunc_root, get?_trunc]
+    cases hg1 : w1.root.get? path with
+    | none => rfl
+    | some n1 =>
+      cases n1 with
+      | sec s => rfl
+      | strat sd ks =>
+        simp only [Option.map_some, trunc_strat, curWeights_truncL]
+        rfl
+
+theorem postSteps_trunc {t : Nat} (path : List Nat) : ∀ (sts : List (WStep K)) {w : World K}, ClockLE t w →
+    ∀ (ws : List (Nat × K)),
+      postSteps cfg path sts (w.trunc t, ws) = (postSteps cfg path sts (w, ws)).map (truncFst t)
+  | [], w, _, ws => by rw [postSteps, postSteps]; rfl
+  | st :: rest, w, hw, ws => by
+    rw [postSteps, postSteps]
+    refine bind_comm (truncFst t) (truncFst t) (postStep_trunc path st hw ws) fun s1 h1 => ?_
+    obtain ⟨w1, ws1⟩ := s1
+    exact postSteps_trunc path rest ((postStep_runC (C := (· ≤ t)) h1).wok hw) ws1
+
+/-- the stack of one strategy is a sequence of public calls (the refreshing read of its `LimitDeltas`, those of its
+    `Rebalance`) -/
 theorem progRunX_runC {C : Nat → Prop} {p : ProgX K} {path : List Nat} {d : Nat} {w w' : World K}
     (hw : WOK C w) (h : progRunX cfg p path d w = .ok w') : RunC cfg C w w' := by
   unfold progRunX at h
@@ -139,7 +239,9 @@ theorem progRunX_runC {C : Nat → Prop} {p : ProgX K} {path : List Nat} {d : Na
       · cases h; exact .nil _
       · split at h
         · cases h
-        · exact algoRebalance_runC hw h
+        · obtain ⟨⟨w1, ws1⟩, h1, h⟩ := bind_eq_ok h
+          have r1 := postSteps_runC (C := C) _ h1
+          exact r1.append (algoRebalance_runC (r1.wok hw) h)
     · cases h
   · cases h; exact .nil _
 
@@ -174,7 +276,9 @@ theorem progRunX_trunc (p : ProgX K) (path : List Nat) {d t : Nat} (hd : d ≤ t
             simp only
             split
             · rfl
-            · exact algoRebalance_trunc hw path _ none none
+            · refine bind_comm (truncFst t) (World.trunc t) (postSteps_trunc path p.post hw _) fun s1 h1 => ?_
+              obtain ⟨w1, ws1⟩ := s1
+              exact algoRebalance_trunc ((postSteps_runC (C := (· ≤ t)) _ h1).wok hw) path _ p.cash none
 
 theorem progRunX_gate_closed (p : ProgX K) (path : List Nat) (d : Nat) (w : World K)
     (h : p.gate.getD d false = false) : progRunX cfg p path d w = .ok w := by
